@@ -655,7 +655,7 @@ def check(ctx):
         items.append((corp[idx][0].module.name, (lambda idx=idx: corpus()[idx][0]),
                       (lambda g, idx=idx: [(next(x for x in g.entries if x.name == e.name), a) for e, a in corpus()[idx][1]])))
     # 2. generated modules
-    nmods = 40 if ctx.thorough else 4
+    nmods = 30 if ctx.thorough else 4
     nargs = 4 if ctx.thorough else 3
     base = ctx.rng.randrange(1 << 30)
     for k in range(nmods):
